@@ -114,18 +114,22 @@ Section Eq.
       if String.eqb n "kmip.RequestBatchItem" then
         (* RequestBatchItem.TagEncodeTTLV *)
         match fs with
-        | [VInt op; VStr id; payload; ext] =>
+        | [VInt op; idv; payload; ext] =>
+          match bytes_of idv with None => Panic | Some id =>
           do p <- enc_ty f st (fty d 2) (ftag d 2) payload ;;
           do e <- enc_ty f (snd p) (fty d 3) (ftag d 3) ext ;;
           Ok ([IStruct tag ([IEnum (ftag d 0) (ftag d 0) op] ++
                             (match id with [] => [] | _ => [IBytes (ftag d 1) id] end) ++
                             fst p ++ fst e)], snd e)
+          end
         | _ => Panic
         end
       else if String.eqb n "kmip.ResponseBatchItem" then
         (* ResponseBatchItem.TagEncodeTTLV: always under TagBatchItem *)
         match fs with
-        | [VInt op; VStr id; VInt status; VInt reason; VStr msg; VStr acv; payload; ext] =>
+        | [VInt op; idv; VInt status; VInt reason; VStr msg; acvv; payload; ext] =>
+          match bytes_of idv, bytes_of acvv with
+          | Some id, Some acv =>
           do p <- enc_ty f st (fty d 6) (ftag d 6) payload ;;
           do e <- enc_ty f (snd p) (fty d 7) (ftag d 7) ext ;;
           Ok ([IStruct TAG_BATCH_ITEM
@@ -136,6 +140,8 @@ Section Eq.
                   (match msg with [] => [] | _ => [IText (ftag d 4) msg] end) ++
                   (match acv with [] => [] | _ => [IBytes (ftag d 5) acv] end) ++
                   fst p ++ fst e)], snd e)
+          | _, _ => Panic
+          end
         | _ => Panic
         end
       else if String.eqb n "kmip.UnknownPayload" then
